@@ -17,7 +17,7 @@ its result.  Probe i sits before the call of fn, probe j after it.
 """
 
 IMPORTS = [
-    "from mc.c13_env import P, PF, DEC, CB, LO, SCF, Boom",
+    "from mc.c13_env import P, PF, PI, DEC, CB, LO, SCF, Boom",
     "import mc.c13_env as _c13_env; _c13_env.register()",
 ]
 CACHE_IMPL = "c13dict"
@@ -41,6 +41,12 @@ def P(i, T):
     """statement / argument probe: ${P(i, T)}"""
     _fire(i, T)
     return ""
+
+
+def PI(i, T, n):
+    """probe in the iterable expression of a % for: % for v in PI(i, T, n):"""
+    _fire(i, T)
+    return range(n)
 
 
 def PF(i, T):
